@@ -3330,9 +3330,14 @@ class RegexMatch(Match):
         if nfdfa_state in self.dfa_2.finishing_states:
             into.mark_accepting(new_state)
 
+        multiple_inverted = sum(1 for source in transitions if isinstance(source, InvertedRegexCharClass)) > 1
+
         for source, target in transitions.items():
+            if isinstance(source, InvertedRegexCharClass) and multiple_inverted:
+                # Only one inverted class can be represented with Else; with several (disjoint) ones spell them out instead
+                source = RegexCharClass(frozenset(chr(x) for x in range(256)) - source.chars)
+                nfdfa_state.transition_dbg_metas.setdefault(source, next(iter(nfdfa_state.transition_dbg_metas.values())))
             if isinstance(source, InvertedRegexCharClass):
-                # TODO: handle multiple of these
                 # Convert to a normal set
                 new_transitions[source.chars | frozenset((DFTransition.End,))] = (else_path, False)
                 new_transitions[frozenset((DFTransition.Else,))] = (self._create_dfa_state(target, into, False, else_path), target in self.dfa_2.finishing_states)
